@@ -4,7 +4,23 @@ from .engine import Broken
 
 
 class Row:
-    __slots__ = ("code", "name", "prompt", "prompt_name", "flags", "flag_names", "second", "index", "desc")
+    __slots__ = ("code", "name", "prompt", "prompt_name", "flags", "flag_names", "second", "index", "desc", "latch")
+
+    @property
+    def no_ok(self):
+        return "PR_NO_OK" in self.flag_names
+
+    @property
+    def fatal(self):
+        return "PR_FATAL" in self.flag_names
+
+    @property
+    def after_code(self):
+        return "PR_AFTER_CODE" in self.flag_names
+
+    @property
+    def not_a_fix(self):
+        return "PR_NOT_A_FIX" in self.flag_names
 
 
 def load(world):
@@ -23,6 +39,10 @@ def load(world):
         row.prompt_name = (f.get("prompt") or {}).get("m") or ("PROMPT_NONE" if row.prompt == 0 else "?")
         row.flags = T.const(f.get("flags")) or 0
         row.flag_names = T.macros(f.get("flags")) if f.get("flags") else set()
+        row.latch = 0
+        for x in T.walk(f.get("flags") or {}):
+            if isinstance(x.get("m"), str) and x["m"].startswith("PR_LATCH_") and x["m"] != "PR_LATCH_MASK":
+                row.latch = x.get("c", 0)
         row.second = T.const(f.get("second_code")) or 0
         row.desc = (f.get("e2p_description") or {}).get("v", "")
         rows.append(row)
@@ -37,14 +57,6 @@ def load(world):
                       "end_message": T.const(f.get("end_message")) or 0,
                       "name": (f.get("latch_code") or {}).get("m", "")})
     return rows, latch
-
-
-PR_NO_OK = 0x000008
-PR_PREEN_OK = 0x000001
-PR_FATAL = 0x001000
-PR_AFTER_CODE = 0x002000
-PR_NOT_A_FIX = 0x400000
-PR_LATCH_MASK = 0x000ff0
 
 
 def by_code(rows):
